@@ -33,7 +33,7 @@ ASSUMPTIONS = [
     "TZ=UTC during the check (offset correctness is C16)",
 ]
 BUDGET = {"quick": (600, 4), "thorough": (40000, 16)}
-REQUIRED = ["special_text", "line_separator_text", "size0", "previous_path", "reference", "dir_record", "roothash", "authors", "chain", "history_manifests"]
+REQUIRED = ["special_text", "line_separator_text", "size0", "previous_path", "reference", "dir_record", "roothash", "authors", "chain", "history_manifests", "chain_nonunique_or_gapped", "collection_files"]
 
 CLI = refhash.CLI_FORMATS
 _HEXLEN = {"md5": 32, "sha1": 40, "xxh128": 32, "xxh3": 16, "xxh64": 16}
@@ -93,10 +93,12 @@ def _object_case(draw):
         "patterns": draw(st.lists(st.one_of(gen.names("plain"), _text, st.sampled_from(["*.txt", "a/", ".DS_Store", "ascmhl", "ascmhl/"])), min_size=1, max_size=6, unique=True)),
         "references": draw(st.lists(st.tuples(gen.names("full"), st.binary(max_size=30).map(bytes.hex)).map(list), max_size=3, unique_by=lambda t: t[0])),
         "chain": draw(st.lists(st.tuples(gen.names("full"), st.integers(0, 2**512 - 1).map(refhash.c4_encode_int)).map(list), max_size=8)),
+        # a collection file lists every packing list with sequence number 1: numbers need not be distinct
+        "chain_numbers": draw(st.sampled_from(["ascending", "ascending", "all_one", "gaps"])),
     }
 
 
-HCFG = {"kinds": ["create"] * 5 + ["create_sf"] * 2 + ["put_new", "overwrite", "mv", "mkdir"], "min_steps": 1, "max_steps": 6, "final": ["create"],
+HCFG = {"kinds": ["create"] * 5 + ["create_sf"] * 2 + ["flatten"] * 2 + ["put_new", "overwrite", "mv", "mkdir"], "min_steps": 1, "max_steps": 7, "final": ["create", "flatten", "flatten"],
         "flags": {"-n": 0.2, "-dr": 0.3}}
 
 
@@ -247,11 +249,15 @@ def run_object(scn, ctx):
 
             # ---- chain
             chain = MHLChain(w.abs("R/ascmhl/ascmhl_chain.xml"))
+            mode = scn.get("chain_numbers", "ascending")
+            num = lambda i: {"ascending": i, "all_one": 1, "gaps": 3 * i - 1}[mode]
             for n, (fn, dig) in enumerate(scn["chain"], 1):
-                chain.append_generation(MHLChainGeneration(n, "%04d_%s.mhl" % (n, fn), "c4", dig))
-            hl.generation_number = len(scn["chain"]) + 1
+                chain.append_generation(MHLChainGeneration(num(n), "%04d_%s.mhl" % (n, fn), "c4", dig))
+            hl.generation_number = num(len(scn["chain"]) + 1)
             chain_xml_parser.write_chain(chain, hl)
-            want = [(str(n), "%04d_%s.mhl" % (n, fn), "c4", dig) for n, (fn, dig) in enumerate(scn["chain"], 1)]
+            want = [(str(num(n)), "%04d_%s.mhl" % (n, fn), "c4", dig) for n, (fn, dig) in enumerate(scn["chain"], 1)]
+            if mode != "ascending" and scn["chain"]:
+                ctx.event("chain_nonunique_or_gapped")
             with open(path, "rb") as fh:
                 want.append((str(hl.generation_number), os.path.basename(path), "c4", refhash.digest("c4", fh.read())))
             cb = chain_xml_parser.parse(chain.file_path)
@@ -287,7 +293,12 @@ def run_history(scn, ctx):
         for step in scn["steps"]:
             hist.apply_step(w, scn, step)
         n = 0
-        for p in sorted(w.asc_files()):
+        import glob as _glob
+
+        flat = {w.rel(x): None for x in _glob.glob(os.path.join(w.abs("_flat"), "*", "*", "*")) if os.path.isfile(x)}
+        if any(p.endswith("ascmhl_collection.xml") for p in flat):
+            ctx.event("collection_files")
+        for p in sorted(list(w.asc_files()) + list(flat)):
             ap = w.abs(p)
             if p.endswith(".mhl"):
                 t = hashlist_xml_parser.parse(ap)
